@@ -353,13 +353,14 @@ package connect
 //@   tags C08, C01
 //@   requires c != nil
 //@   assigns owned(res)
+//@   ensures err == nil ==> held(res)                                  // label: the-caller-holds-the-compressor
 //@   ensures err == nil ==> res != nil && out(res) == [] && csink(res) == writer && frompool(res) == c.compressors && pooled(res)   // label: reset-before-use
 //@   ensures res != nil && typeis(res, "*bytes.Buffer") ==> !old(owned(res))
 //@   ensures !(res != nil && typeis(res, "*bytes.Buffer")) ==> owned(res) == old(owned(res))
 
 //@ func (*compressionPool).putCompressor(c, compressor) err
 //@   tags C08, C01
-//@   requires c != nil && compressor != nil && frompool(compressor) == c.compressors && pooled(compressor)
+//@   requires c != nil && compressor != nil && frompool(compressor) == c.compressors && pooled(compressor) && held(compressor) && !typeis(compressor, "*bytes.Buffer")
 //@   requires typeis(csink(compressor), "*bytes.Buffer") ==> csink(compressor) != nil && owned(csink(compressor))
 //@   assigns view(csink(compressor)), owned(compressor)
 //@   ensures typeis(old(csink(compressor)), "*bytes.Buffer") && err == nil ==> view(old(csink(compressor))) == old(view(csink(compressor))) ++ compBy(c.compressors, old(out(compressor)))   // label: flushes-compressed-bytes-to-sink
@@ -373,10 +374,12 @@ package connect
 //@   ensures res != nil ==> asErr(res) == res && res.code != 0
 
 //@ func (*compressionPool).getDecompressor(c, reader) (res, err)
-//@   tags C08, C01, C07
+//@   tags C08, C01, C07, C06
 //@   requires c != nil && reader != nil
 //@   assigns owned(res), rest(res), termerr(res)
 //@   ensures err == nil ==> res != nil && frompool(res) == c.decompressors && termerr(res) != nil && pooled(res)
+//@   ensures err == nil ==> held(res) && usable(res) && !typeis(res, "*bytes.Buffer")   // label: the-caller-holds-a-successfully-reset-decompressor   // tags: C08, C06
+//@   ensures err != nil ==> !called("(*sync.Pool).Put", 1) && !called("(*compressionPool).putDecompressor", 1)   // label: a-decompressor-whose-reset-failed-is-dropped-not-recycled   // tags: C08, C06
 //@   ensures err == nil && typeis(reader, "*bytes.Buffer") && decompOK(c.decompressors, view(reader)) ==> rest(res) == decompBy(c.decompressors, view(reader)) && termerr(res) == io.EOF   // label: reset-before-use
 //@   ensures err == nil && typeis(reader, "*bytes.Buffer") && !decompOK(c.decompressors, view(reader)) ==> termerr(res) != io.EOF
 //@   ensures err == nil ==> termerr(res) == io.EOF || !Is(termerr(res), io.EOF)
@@ -387,15 +390,15 @@ package connect
 //@   ensures res != nil ==> frompool(res) == c.decompressors && pooled(res)
 
 //@ func (*compressionPool).putDecompressor(c, decompressor) err
-//@   tags C08, C01, C07
-//@   requires c != nil && decompressor != nil && frompool(decompressor) == c.decompressors && pooled(decompressor)
+//@   tags C08, C01, C07, C06
+//@   requires c != nil && decompressor != nil && frompool(decompressor) == c.decompressors && pooled(decompressor) && held(decompressor) && usable(decompressor) && !typeis(decompressor, "*bytes.Buffer")
 //@   assigns owned(decompressor)
 //@   ensures owned(decompressor) == old(owned(decompressor))
 //@   ensures old(rest(decompressor)) == [] && old(termerr(decompressor)) == io.EOF ==> err == nil    // label: recycling-a-drained-decompressor-succeeds
 
 // The sum bytesRead+discardedBytes is only printed in an error message.
 //@ func (*compressionPool).Decompress(c, dst, src, readMaxBytes) res
-//@   tags C08, C01, C07, C09
+//@   tags C08, C01, C07, C09, C06
 //@   requires c != nil && dst != nil && src != nil && dst != src && owned(dst) && owned(src)
 //@   nosafety overflow
 //@   assigns view(dst)
@@ -1285,14 +1288,14 @@ package connect
 //@ trusted func readOnlyCodecs.Names(c) res
 
 //@ func wrapHandlerConnWithCodedErrors(conn) res
-//@   tags C05, C07, C08
+//@   tags C05, C07, C08, C02, C15
 //@   ensures fresh(res)
 //@ func connectCodecFromContentType(streamType, contentType) res
 //@   tags C05, C12
 //@   ensures streamType == 0 && |contentType| >= 12 && contentType[:12] == "application/" ==> res == contentType[12:]
 //@   ensures streamType != 0 && |contentType| >= 20 && contentType[:20] == "application/connect+" ==> res == contentType[20:]
 //@ func grpcCodecFromContentType(web, contentType) res
-//@   tags C05, C12
+//@   tags C05, C12, C07
 //@   ensures !web && contentType == "application/grpc" ==> res == "proto"
 //@   ensures web && contentType == "application/grpc-web" ==> res == "proto"
 //@   ensures !web && |contentType| >= 17 && contentType[:17] == "application/grpc+" ==> res == contentType[17:]
@@ -1301,6 +1304,7 @@ package connect
 //@ func (*connectHandler).NewConn(h, responseWriter, request) (conn, ok)
 //@   tags C05, C07, C08, C09
 //@   requires h != nil && responseWriter != nil && request != nil && h.protocolHandlerParams.CompressionPools != nil && h.protocolHandlerParams.Codecs != nil
+//@   assert@call(negotiateCompression#1): arg0 == h.protocolHandlerParams.CompressionPools && (h.protocolHandlerParams.Spec.StreamType == 0 ==> arg1 == hget(request.Header, "Content-Encoding") && arg2 == hget(request.Header, "Accept-Encoding")) && (h.protocolHandlerParams.Spec.StreamType != 0 ==> arg1 == hget(request.Header, "Connect-Content-Encoding") && arg2 == hget(request.Header, "Connect-Accept-Encoding"))   // label: negotiation-reads-the-request-encoding-and-the-accept-list-from-their-headers   // tags: C08, C07
 //@   assigns everything
 //@   ensures callres("negotiateCompression", 1, 2) != nil ==> !ok && called("handlerConnCloser.Close", 1)                 // label: failed-negotiation-closes-the-conn-with-the-error   // tags: C07, C08
 //@   ensures callres("negotiateCompression", 1, 2) == nil ==> ok && conn != nil                                            // label: successful-negotiation-yields-a-conn
@@ -1312,6 +1316,7 @@ package connect
 //@ func (*grpcHandler).NewConn(g, responseWriter, request) (conn, ok)
 //@   tags C05, C07, C08, C09
 //@   requires g != nil && responseWriter != nil && request != nil && g.protocolHandlerParams.CompressionPools != nil && g.protocolHandlerParams.Codecs != nil
+//@   assert@call(negotiateCompression#1): arg0 == g.protocolHandlerParams.CompressionPools && arg1 == hget(request.Header, "Grpc-Encoding") && arg2 == hget(request.Header, "Grpc-Accept-Encoding")   // label: negotiation-reads-the-request-encoding-and-the-accept-list-from-their-headers   // tags: C08, C07
 //@   assigns everything
 //@   ensures callres("negotiateCompression", 1, 2) != nil ==> !ok && called("handlerConnCloser.Close", 1)                 // label: failed-negotiation-closes-the-conn-with-the-error   // tags: C07, C08
 //@   ensures callres("negotiateCompression", 1, 2) == nil ==> ok && conn != nil                                            // label: successful-negotiation-yields-a-conn
@@ -1737,32 +1742,37 @@ package connect
 //@   ensures translated(callres("handlerConnCloser.Close", 1), res)   // label: users-see-the-inner-error-coded
 
 //@ func (*errorTranslatingClientConn).Send(cc, msg) err
-//@   tags C02, C15
+//@   tags C02, C15, C06
 //@   requires cc != nil && cc.StreamingClientConn != nil
 //@   assigns everything
 //@   ensures translated(callres("StreamingClientConn.Send", 1), err)   // label: users-see-the-inner-error-coded
 //@   ensures callres("StreamingClientConn.Send", 1) != nil ==> (Is(err, io.EOF) <==> Is(callres("StreamingClientConn.Send", 1), io.EOF))   // label: the-write-side-eof-stays-recognisable   // tags: C02, C04
 //@ func (*errorTranslatingClientConn).Receive(cc, msg) err
-//@   tags C02, C15, C04
+//@   tags C02, C15, C06, C04
 //@   requires cc != nil && cc.StreamingClientConn != nil
 //@   assigns everything
 //@   ensures translated(callres("StreamingClientConn.Receive", 1), err)   // label: users-see-the-inner-error-coded
 //@   ensures callres("StreamingClientConn.Receive", 1) != nil ==> (Is(err, io.EOF) <==> Is(callres("StreamingClientConn.Receive", 1), io.EOF))   // label: end-of-stream-stays-recognisable   // tags: C04
 //@ func (*errorTranslatingClientConn).CloseRequest(cc) err
-//@   tags C02, C15
+//@   tags C02, C15, C06
 //@   requires cc != nil && cc.StreamingClientConn != nil
 //@   assigns everything
 //@   ensures translated(callres("StreamingClientConn.CloseRequest", 1), err)
 //@ func (*errorTranslatingClientConn).CloseResponse(cc) err
-//@   tags C02, C15
+//@   tags C02, C15, C06
 //@   requires cc != nil && cc.StreamingClientConn != nil
 //@   assigns everything
 //@   ensures translated(callres("StreamingClientConn.CloseResponse", 1), err)
 //@ constfield errorTranslatingHandlerConnCloser.toWire, errorTranslatingHandlerConnCloser.fromWire, errorTranslatingHandlerConnCloser.handlerConnCloser, errorTranslatingClientConn.fromWire, errorTranslatingClientConn.StreamingClientConn
 //@ typeinv *errorTranslatingHandlerConnCloser v by wrapHandlerConnWithCodedErrors: v.toWire != nil && v.fromWire != nil
 //@ typeinv *errorTranslatingClientConn v by wrapClientConnWithCodedErrors: v.fromWire != nil
+// Every error-returning method of the wrapped connection is declared on the
+// wrapper itself (none is promoted from the embedded value, which would bypass
+// the translation).
+//@ overridesall errorTranslatingClientConn StreamingClientConn by wrapClientConnWithCodedErrors
+//@ overridesall errorTranslatingHandlerConnCloser handlerConnCloser by wrapHandlerConnWithCodedErrors
 //@ func wrapClientConnWithCodedErrors(conn) res
-//@   tags C02, C15
+//@   tags C02, C15, C06
 //@   ensures fresh(res) && typeis(res, "*errorTranslatingClientConn") && cast(res, "*errorTranslatingClientConn").StreamingClientConn == conn
 
 // ---------------------------------------------------------------------------
